@@ -5,6 +5,8 @@ import Msmart.Driver.Util
 import Msmart.Model.PacketV2
 import Msmart.Spec.V2Spec
 import Msmart.Model.Reassembly
+import Msmart.Model.PacketV3
+import Msmart.Spec.V3Spec
 
 namespace Msmart.Driver
 open Msmart Msmart.Model
@@ -30,6 +32,26 @@ def lanOp (op : String) (t : List String) : Option String :=
         go r.2 rest ((";".intercalate (r.1.map toHex)) :: acc)
     let (outs, buf) := go [] segs []
     some ("q=" ++ "|".intercalate outs ++ " buf=" ++ toHex buf)
+  | "v3_enc_request" =>
+    let key := if (kvGet t "key").isSome then some (kvHex t "key") else none
+    some (rStr toHex (encodeEncryptedRequest key (kvNat t "ctr") (kvHex t "data") (kvHex t "pad")))
+  | "v3_hs_request" => some (rStr toHex (encodeHandshakeRequest (kvNat t "ctr") (kvHex t "data")))
+  | "v3_process" =>
+    let key := if (kvGet t "key").isSome then some (kvHex t "key") else none
+    some (rStr toHex (processPacket key (kvHex t "packet")))
+  | "v3_local_key" => some (rStr toHex (getLocalKey (kvHex t "key") (kvHex t "data")))
+  | "spec_v3_encode" =>
+    some (toHex (Spec.V3.encodeEncrypted (kvHex t "key") (kvNat t "type") (kvNat t "ctr") (kvHex t "data") (kvHex t "pad")))
+  | "spec_v3_decode" =>
+    match Spec.V3.decodeEncrypted (kvHex t "key") (kvHex t "packet") with
+    | none => some "none"
+    | some d => some s!"ok type={d.ptype} ctr={d.counter} data={toHex d.data}"
+  | "spec_v3_hs_reply" => some (toHex (Spec.V3.handshakeReply (kvHex t "key") (kvHex t "nonce") (kvNat t "ctr")))
+  | "spec_v3_session_key" => some (toHex (Spec.V3.sessionKey (kvHex t "key") (kvHex t "nonce")))
+  | "spec_v3_parse_hs" =>
+    match Spec.V3.parseHandshakeRequest (kvHex t "packet") with
+    | none => some "none"
+    | some (c, tok) => some s!"ok ctr={c} token={toHex tok}"
   | "udpid" => some (toHex (udpid (kvHex t "id")))
   | _ => none
 
